@@ -295,3 +295,24 @@ def describe(bit, limit=6):
     if len(bit) > limit:
         s += " ^ ...(%d)" % len(bit)
     return s
+
+
+def support(bit, memo=None):
+    """set of (symbol, bit index) variables a term depends on (syntactically)"""
+    if bit is TOP:
+        return frozenset()
+    if memo is None:
+        memo = {}
+    r = memo.get(id(bit))
+    if r is not None:
+        return r[1]
+    out = set()
+    for a in bit:
+        if a[0] == "v":
+            out.add((a[1], a[2]))
+        elif a[0] in ("&", "|"):
+            for part in a[1]:
+                out |= support(part, memo)
+    out = frozenset(out)
+    memo[id(bit)] = (bit, out)
+    return out
